@@ -23,7 +23,7 @@ RULE = (
     "names: 4 names x 5 render entry points and x 8 binding forms. distinct = (sites, read site, strict, layout); "
     "non-trivial = at least two binding sites compete, or the name is unbound."
 )
-RULE += " added since: 12 layouts with decoy names, read sites 'def called through <%call>' and 'second expression of a tag attribute', identity checks of the UNDEFINED singleton, falsy context values (None, 0, '', False, [], 0.0) under both strict settings. read sites on `% elif` / `% except` lines only and in the default of a def nested in another def. the <%page> argument written keyword-only in every other combination. defs shadowing defs (nested def named like a top-level def or block; two levels down; as call target; def argument)."
+RULE += " added since: 12 layouts with decoy names, read sites 'def called through <%call>' and 'second expression of a tag attribute', identity checks of the UNDEFINED singleton, falsy context values (None, 0, '', False, [], 0.0) under both strict settings. read sites on `% elif` / `% except` lines only and in the default of a def nested in another def. the <%page> argument written keyword-only in every other combination. defs shadowing defs (nested def named like a top-level def or block; two levels down; as call target; def argument). the variable named like a filter shortcut (trim) at the read sites nesteddefault / attr / elif."
 ASSUMPTIONS = [
     "when a name is bound both at module level and by a body assignment / <%page> argument, what a def or named "
     "block (separate callables that receive body values through the context) sees is not asserted",
